@@ -412,6 +412,140 @@ func check2D(r *ev.Run) {
 	}
 }
 
+
+// solidLattice drives the ray-marching collider with "round" rays: axis-parallel rays from lattice origins
+// through boxes whose faces coincide with their bounds, with step sizes that divide the box exactly (and some
+// that do not). The crossings of such a ray are known in closed form.
+type latCase struct {
+	Kind   string    `json:"kind"`
+	Box    []float64 `json:"box"`
+	Eps    float64   `json:"eps"`
+	Origin []float64 `json:"origin"`
+	Dir    []float64 `json:"direction"`
+}
+
+func checkSolidLattice(r *ev.Run, c latCase) {
+	mn, mx := model3d.XYZ(c.Box[0], c.Box[1], c.Box[2]), model3d.XYZ(c.Box[3], c.Box[4], c.Box[5])
+	sc := &model3d.SolidCollider{Solid: model3d.NewRect(mn, mx), Epsilon: c.Eps}
+	o := model3d.XYZ(c.Origin[0], c.Origin[1], c.Origin[2])
+	d := model3d.XYZ(c.Dir[0], c.Dir[1], c.Dir[2])
+	ray := &model3d.Ray{Origin: o, Direction: d}
+	viol := func(kind, msg string) {
+		r.Violation("SolidCollider/lattice-"+kind, fmt.Sprintf("box %v..%v eps %g ray %v+t%v: %s", mn, mx, c.Eps, o, d, msg), c)
+	}
+	// closed-form crossings (slab method on exactly representable numbers)
+	oa, da, lo, hi := o.Array(), d.Array(), mn.Array(), mx.Array()
+	t0, t1 := math.Inf(-1), math.Inf(1)
+	inside := true
+	for i := 0; i < 3; i++ {
+		if oa[i] <= lo[i] || oa[i] >= hi[i] {
+			inside = false
+		}
+		if da[i] == 0 {
+			if oa[i] <= lo[i] || oa[i] >= hi[i] {
+				t0, t1 = 1, 0 // misses (grazing rays are not generated)
+			}
+			continue
+		}
+		a, b := (lo[i]-oa[i])/da[i], (hi[i]-oa[i])/da[i]
+		if a > b {
+			a, b = b, a
+		}
+		t0, t1 = math.Max(t0, a), math.Min(t1, b)
+	}
+	var want []float64
+	if t0 < t1 {
+		if t0 > 0 {
+			want = append(want, t0)
+		}
+		if t1 > 0 {
+			want = append(want, t1)
+		}
+	}
+	r.Eval(1)
+	var hits []model3d.RayCollision
+	var n, n0 int
+	var first model3d.RayCollision
+	var ok bool
+	if p := ev.Try(func() {
+		n = sc.RayCollisions(ray, func(rc model3d.RayCollision) { hits = append(hits, rc) })
+		n0 = sc.RayCollisions(ray, nil)
+		first, ok = sc.FirstRayCollision(ray)
+	}); p != "" {
+		viol("panic", "panic: "+p)
+		return
+	}
+	if n != len(hits) || n != n0 {
+		viol("count", fmt.Sprintf("count %d, callbacks %d, nil-callback count %d", n, len(hits), n0))
+		return
+	}
+	if ok != (n > 0) {
+		viol("first-exists", fmt.Sprintf("FirstRayCollision exists=%v, %d collisions", ok, n))
+	}
+	if len(want) > 0 {
+		r.NontrivialAdd(1)
+	}
+	if n != len(want) {
+		viol("crossings", fmt.Sprintf("%d collisions, the ray crosses the box surface %d times at %v", n, len(want), want))
+		return
+	}
+	if (n%2 == 1) != inside {
+		viol("parity", fmt.Sprintf("%d collisions, origin inside=%v", n, inside))
+	}
+	tol := 1.01 * c.Eps / d.Norm()
+	var got []float64
+	for _, h := range hits {
+		got = append(got, h.Scale)
+	}
+	sort.Float64s(got)
+	for i := range want {
+		if math.Abs(got[i]-want[i]) > tol {
+			viol("crossings", fmt.Sprintf("collisions at %v, the surface is crossed at %v", got, want))
+			return
+		}
+	}
+	if ok && math.Abs(first.Scale-want[0]) > tol {
+		viol("first-not-min", fmt.Sprintf("first collision at %g, first crossing at %g", first.Scale, want[0]))
+	}
+}
+
+func solidLattice(r *ev.Run, th bool) {
+	boxes := [][]float64{{0, 0, 0, 1, 1, 1}, {-1, -0.5, -0.25, 0.5, 1, 1.5}}
+	epss := []float64{0.25, 0.125, 0.05, 0.01}
+	if th {
+		epss = append(epss, 0.5, 0.0625, 0.1, 0.005, 0.03)
+	}
+	scales := []float64{1, 2, 0.5}
+	var cases []latCase
+	for _, b := range boxes {
+		for _, eps := range epss {
+			// lattice coordinates per axis: outside below, interior quarter points, outside above
+			coords := func(i int) []float64 {
+				w := b[3+i] - b[i]
+				return []float64{b[i] - w, b[i] - 0.5*w, b[i] + 0.25*w, b[i] + 0.5*w, b[i] + 0.75*w, b[3+i] + 0.5*w}
+			}
+			for _, x := range coords(0) {
+				for _, y := range coords(1) {
+					for _, z := range coords(2) {
+						for ax := 0; ax < 3; ax++ {
+							for _, sg := range []float64{1, -1} {
+								for _, s := range scales {
+									d := [3]float64{}
+									d[ax] = sg * s
+									cases = append(cases, latCase{"solid-lattice", b, eps, []float64{x, y, z}, d[:]})
+								}
+							}
+						}
+					}
+				}
+			}
+		}
+	}
+	ev.Parallel(len(cases), 16, func(i int) { checkSolidLattice(r, cases[i]) })
+	r.Set("solid_lattice_cases", len(cases))
+	r.Sample(cases[0])
+}
+
 func main() {
 	r := ev.Start("C07", "exploration")
 	th := r.Thorough()
@@ -419,6 +553,14 @@ func main() {
 	if r.Replay != "" {
 		var c rayCase
 		r.LoadReplay(&c)
+		var lc latCase
+		r.LoadReplay(&lc)
+		if lc.Kind == "solid-lattice" {
+			checkSolidLattice(r, lc)
+			r.NontrivialAdd(2)
+			r.Sample(lc)
+			r.Finish()
+		}
 		for _, k := range colliders3(true) {
 			if k.name == c.Collider {
 				checkColl3(r, k, 3, []float64{1, 0.1, 7}, 1)
@@ -441,5 +583,6 @@ func main() {
 		r.Sample(rayCase{cs[7].name, []float64{0, 0, 0}, []float64{1, 1, 0}, nil})
 	})
 	r.Isolate("colliders2", func() { check2D(r) })
+	r.Isolate("solid-lattice", func() { solidLattice(r, th) })
 	r.Finish()
 }
